@@ -27,7 +27,15 @@ declarations:
 - decl: void setval(const char *v)
 - decl: struct Pt { int x; double y; }
 - decl: double norm(Pt *p)
+- decl: class Chain
+  declarations:
+  - decl: Chain()
+  - decl: Chain *grow(int n)
+    return_this: true
+  - decl: int length()
 """
+# names every language that is switched on must know (class methods included)
+PRESENT = ["fone", "Widget", "size", "getvec", "norm", "Chain", "grow", "length"]
 
 KIND = {".c": "c", ".cpp": "c", ".h": "c", ".hpp": "c", ".f": "f", ".f90": "f", ".lua": "lua", ".py": "py"}
 
@@ -202,9 +210,57 @@ def check_type_off(inp):
     return None
 
 
+FLATNS = """library: sel
+cxx_header: sel.hpp
+options:
+%%s
+declarations:
+- decl: void keep(int a)
+- decl: namespace inner
+  options:
+    F_flatten_namespace: %s
+    wrap_fortran: false
+  declarations:
+  - decl: void hidden1(int a)
+  - decl: enum HiddenColor { HIDDENRED, HIDDENBLUE }
+  - decl: namespace deeper
+    declarations:
+    - decl: void hidden2(int a)
+"""
+
+
+def check_namespace_off(inp):
+    """a namespace switched off for Fortran contributes nothing to any Fortran module, flattened or not"""
+    global YAML
+    saved = YAML
+    YAML = FLATNS % ("true" if inp["flatten"] else "false")
+    try:
+        files, cf, ff = run({"python": False, "lua": False}, {})
+    except (RuntimeError, SystemExit):
+        return None
+    finally:
+        YAML = saved
+    import re
+    seen_keep = False
+    for rel, data in sorted(files.items()):
+        if classify(os.path.basename(rel)) != "f":
+            continue
+        text = data.decode("utf-8", "replace")
+        seen_keep = seen_keep or "keep" in text
+        m = re.search(r"^.*hidden.*$", text, re.I | re.M)
+        if m:
+            return "wrap_fortran is off for namespace inner (F_flatten_namespace %s) but %s has: %r" % (
+                inp["flatten"], rel, m.group(0).strip()[:80])
+    if not seen_keep:
+        return "the Fortran wrapper of 'keep' (wrappers on) is missing"
+    return None
+
+
 def check(inp):
     if inp.get("declaration_off"):
         return check_declaration_off(inp)
+    if "namespace_off" in inp:
+        return check_namespace_off(inp)
     if inp.get("type_off"):
         return check_type_off(inp)
     if inp.get("nested"):
@@ -234,6 +290,13 @@ def check(inp):
         k = classify(os.path.basename(rel))
         if k in want_dir and os.path.basename(rel) != "setup.py" and os.path.dirname(rel) != want_dir[k]:
             return "%s (kind %s) written to %s, designated directory is %s" % (os.path.basename(rel), k, os.path.dirname(rel), want_dir[k])
+    # a declaration whose wrapper is on appears in that language's output
+    for lang, key in (("c", "c"), ("fortran", "f"), ("python", "py"), ("lua", "lua")):
+        if flags.get(lang, True) and (lang != "fortran" or flags.get("c", True)):
+            text = b" ".join(files[r] for r in files if classify(os.path.basename(r)) == key).decode("utf-8", "replace").lower()
+            for nm in PRESENT:
+                if nm.lower() not in text:
+                    return "wrap_%s is on but the %s output does not mention %r" % (lang, lang, nm)
     # python / lua switches do not change a byte of the C and Fortran files
     if flags.get("python") or flags.get("lua"):
         f2 = dict(flags)
@@ -264,6 +327,8 @@ def candidates(seed, around=None):
     # per-declaration switch-off must also hold for the shorter signatures of a function with default arguments
     yield {"declaration_off": ["fortran"]}
     yield {"declaration_off": ["c", "fortran"]}
+    yield {"namespace_off": True, "flatten": True}
+    yield {"namespace_off": True, "flatten": False}
     for t in ("struct", "class"):
         yield {"type_off": t, "langs": ["fortran"]}
         yield {"type_off": t, "langs": ["c", "fortran"]}
